@@ -60,6 +60,14 @@ CLAIMS = {
    level=("model_checking", "Gossip.tla action Catchup (transcription of reset_node_state_if_update) with C18_Catchup (others untouched, live set unchanged, no re-creation of a removed member, (gc,max) never lowered, key set old or supplied with the newer version kept) and C18_NoPanic; model-checked interleaved with gossip and GC, replayed, and evaluated on real traces fed with honest peer snapshots and with arbitrary inconsistent states.", "6 (C18)"),
    note="defect F-4 (panic on older watermark / key-less snapshot) was found by this check and repaired by a fix: commit (known_findings.json, status fixed); supplied versions are pairwise distinct (observation O-2)",
    technique="TLA+ model checking (Gossip.tla) + edge replay + TLC trace validation + observer spec on real traces"),
+ "C10": dict(
+   level=("model_checking", "Detector.tla (Gossip.tla + heartbeat arrivals as crafted SYN digests for one observed member + ghost evidence counters) with the integer-tick phi-accrual detector of FdOps.tla: C10_Complete (silent longer than phi x max(max_interval, initial_interval) => dead and not live at the next evaluation) and C10_TwoObservations, model-checked for all arrival histories up to the bound over a grid of detector parameters, every transition replayed on a real Chitchat under the paused clock, plus long random histories (steady phases, bursts, silences, stale heartbeats; windows to 1000, phi 0.5..16) validated by TLC.", "6 (C10)"),
+   note="durations are whole seconds (exact in f64); equality phi = threshold with an inexact mean may round either way (explicit in the spec); bounded arrival counts in the exhaustive part",
+   technique="TLA+ model checking (Detector.tla/FdOps.tla) + edge replay + TLC trace validation + observer spec"),
+ "C11": dict(
+   level=("model_checking", "Same Detector.tla runs with C11_NeedsEvidence (live => at least two strictly increasing heartbeat values observed), C11_StaleIgnored (equal/lower/replayed/relayed heartbeats change nothing but the observer's own heartbeat) and C11_Steady (arrivals within [a,b], b <= max_interval, phi >= b/min(a, initial) => live at every evaluation).", "6 (C11)"),
+   note="C11_Steady reads the (unobservable) sampling window and is therefore judged on conforming executions only; otherwise as C10",
+   technique="TLA+ model checking (Detector.tla/FdOps.tla) + edge replay + TLC trace validation + observer spec"),
 }
 PENDING = "specification module for this property not built yet in this revision (see DESIGN.md section 10 build order)"
 
